@@ -394,7 +394,8 @@ func TestVerifC01Deliver(t *testing.T) {
 					base[s] = len(s.snapshot())
 				}
 			}
-			// ---- convergence precondition (C05's business): every node sees exactly its interested neighbours
+			// ---- convergence (C05's business): every node sees exactly its interested neighbours
+			notConverged := ""
 			for i, x := range cn.nodes {
 				want := map[peer.ID]bool{}
 				for j, y := range cn.nodes {
@@ -411,9 +412,12 @@ func TestVerifC01Deliver(t *testing.T) {
 				for _, p := range got {
 					ok = ok && want[p]
 				}
-				if !ok {
-					c.Inconclusive("announcements have not converged at %s: ListPeers=%s want %d peers; history=%v", x.nd.name, cn.n.Names(got), len(want), hist)
-					return
+				if !ok && notConverged == "" {
+					// Not a reason to stop: on correct code the announcements always converge within this bound (0 of 6000
+					// thorough cases did not). The case goes on and is judged on deliveries alone; a loss is then reported
+					// together with this observation.
+					notConverged = fmt.Sprintf("announcements had not converged at %s after the settling period: ListPeers=%s, %d interested neighbours", x.nd.name, cn.n.Names(got), len(want))
+					c.Count("views_not_converged", 1)
 				}
 			}
 			// ---- degree precondition for gossipsub (deterministic regime): every non-mesh eligible neighbour can be gossiped to
@@ -530,8 +534,11 @@ func TestVerifC01Deliver(t *testing.T) {
 						n := cnt[p.payload]
 						switch {
 						case p.ok && !strings.HasPrefix(p.payload, "REJECT") && n == 0:
-							c.Violatef(map[string]string{"kind": "message_not_delivered", "router": x.router, "publisher_router": cn.nodes[p.by].router},
-								"%s subscription %d never received %q (published by %s); %s", x.nd.name, si, p.payload, cn.nodes[p.by].nd.name, desc())
+							cause := map[string]string{"kind": "message_not_delivered", "router": x.router, "publisher_router": cn.nodes[p.by].router}
+							if notConverged != "" {
+								cause["with"] = "interest_not_converged"
+							}
+							c.Violatef(cause, "%s subscription %d never received %q (published by %s); %s %s", x.nd.name, si, p.payload, cn.nodes[p.by].nd.name, notConverged, desc())
 						case n > 1:
 							c.Violatef(map[string]string{"kind": "message_delivered_twice", "router": x.router}, "%s subscription %d received %q %d times; %s", x.nd.name, si, p.payload, n, desc())
 						case strings.HasPrefix(p.payload, "REJECT") && n > 0:
